@@ -246,6 +246,22 @@ CLAIMS = {
         technique="static analysis: abstract evaluation + canonical-form comparison of the generated constraint schema against a reference schema (ast)",
         ref="DESIGN.md §3 C09",
     ),
+    "C05": dict(
+        text=(
+            "Decides C05 relative to reference schemas, for both routes and for division given as IntArray1D or as a plain list: "
+            "division_connected is evaluated abstractly on the small graphs (<= 4 vertices) x {1, 2} regions x allow_empty_group x "
+            "roots lists with None entries; the canonicalised constraint set must equal the spanning-forest schema (forest edges "
+            "join equal labels with different ranks; each non-root has exactly one lower forest neighbour; exactly/at most one "
+            "root per label; listed roots carry their label and are forest roots) resp. the primitive schema (one indicator array "
+            "per label tied to label equality, native connectivity of each, non-emptiness unless allowed, root labels). Deviations "
+            "are triaged by enumerating the projection onto the labels against the graph-theoretic definition (VIOLATION with a "
+            "witness labelling, else undecided). (ALG-10) grid form: (y, x) roots become y*width+x on the row-major grid graph, "
+            "integer roots rejected."
+        ),
+        note="Trusted: exactness of the reference schemas (DESIGN.md C05), uniformity in the graph; abstract evaluator; documented meaning of the native operator.",
+        technique="static analysis: abstract evaluation + canonical-form comparison of the generated constraint schema against a reference schema (ast)",
+        ref="DESIGN.md §3 C05",
+    ),
 }
 
 NOT_APPLICABLE = {
